@@ -390,6 +390,12 @@ func (c *FnCtx) execIf(st *State, x *ast.IfStmt) []Out {
 	}
 	cond := c.eval(st, x.Cond)
 	var outs []Out
+	if os.Getenv("GVC_BRANCHCOVER") != "" && c.specDepth == 0 {
+		// audit aid (not part of any registered check): is each outcome of this condition consistent with the assumptions?
+		line := c.eng.fset.Position(x.Pos()).Line
+		c.obls = append(c.obls, &Obligation{Func: c.fi.Key, Kind: "cover:branch", Site: x.Pos(), Sub: fmt.Sprintf("then@%d", line), Detail: "then-branch reachable", Assume: append(append([]*Term(nil), st.pc...), cond), Goal: tTrue, Cover: true})
+		c.obls = append(c.obls, &Obligation{Func: c.fi.Key, Kind: "cover:branch", Site: x.Pos(), Sub: fmt.Sprintf("else@%d", line), Detail: "else-branch reachable", Assume: append(append([]*Term(nil), st.pc...), mkNot(cond)), Goal: tTrue, Cover: true})
+	}
 	if !isLit(cond, "false") {
 		t := st.clone()
 		t.pc = append(t.pc, cond)
